@@ -111,7 +111,10 @@ class RealSim(simrun.Sim):
                 p = fn if rel == "." else os.path.join(rel, fn)
                 if p in ("build.ninja", "build.ninja.in", ".verif_trace", ".ninja_log", ".ninja_deps", ".ninja_lock") or ".vtmp" in p:
                     continue
-                st = os.stat(os.path.join(base, fn))
+                try:
+                    st = os.stat(os.path.join(base, fn))
+                except OSError:
+                    st = os.lstat(os.path.join(base, fn))      # a dangling or self-referencing link (injected fault)
                 try:
                     c = open(os.path.join(base, fn), "r", errors="replace").read()
                 except OSError:
